@@ -1290,10 +1290,12 @@ def event_rate(block_size, block_step, target, s0_mode='center'):
                 events.start + block_size
             )
             blocks.append(block)
-            events = events.get_range_samples(
-                events.start + block_step,
-                events.end
-            )
+            # Only trim on the left. Upstream stages (e.g., `edges`) may report
+            # an event at or after the end of the block that carries it; such
+            # events belong to windows that are completed by later blocks.
+            start = events.start + block_step
+            keep = events.events['sample'] >= start
+            events = Events(events.events[keep], start, events.end, events.fs)
         if blocks:
             rate = [b.rate() for b in blocks]
 
